@@ -507,6 +507,24 @@ def drive(strategy: Any, fn: Callable[[Any], None], *, n: int, seed: int) -> Non
     _t()
 
 
+def rng(draw: Any) -> Any:
+    """Source of the structural choices of one generated case.
+
+    Half of the cases use Hypothesis's own Random (whose draws are deliberately
+    biased towards small/simple values: measured P(random() < 0.1) = 0.34), the
+    other half a random.Random seeded with a Hypothesis-drawn 64-bit integer, which
+    gives the branch probabilities written in the generators.  Both are pure
+    functions of the Hypothesis seed, i.e. of VERIF_SEED.
+    """
+    import random as _random
+
+    from hypothesis import strategies as st
+
+    if draw(st.booleans()):
+        return draw(st.randoms(use_true_random=False))
+    return _random.Random(draw(st.integers(min_value=0, max_value=2**64 - 1)))
+
+
 def sub_seed(seed: int, shard: int, salt: int = 0) -> int:
     return seed * 1000 + shard * 17 + salt
 
